@@ -59,6 +59,7 @@ KIND_NAMES = {
     104: 'session/stop_write: a stop (files closed, os.File semantics) or a disk error while a verified piece waits at the disk, stepped loop: pieces reported vs bytes on disk vs WriteGate.v',
     903: 'C09/picker_ws: piecepicker with web seeds (PickWebseed, stop-at, close, web-seed and peer steals, PickFor in web-seed mode) under the torrent glue vs PickerWs.v (answers validated against the legal set)',
     905: 'C09/file_edges: markFileEdges of the real picker (sequential mode) on generated layouts incl. zero-length, tiny, huge and padding files vs Edges.v',
+    1605: 'C16/reply_limit: httptracker.Announce against a local server whose reply is around, below or above the configured limit, with a declared length or streamed in chunks vs Tracker.read_reply',
     1901: 'C19/private_flag: metainfo.NewInfo on generated encodings of the private field (integers incl. out of int64 range, strings, lists, dictionaries, absent) vs Priv.priv_of_raw',
     1902: 'session/private: private, public and magnet torrents in the stepped event loop with a scripted HTTP tracker and scripted peers, DHT/PEX/dial switches on and off, optionally after a session restart: addresses known by source, DHT announcer and request queue, PEX senders, magnet export, metadata adoption, user agent / peer id / client version, dial of a probe listener vs Priv.v',
 }
@@ -171,7 +172,7 @@ PROPS = {
         'assumptions': [],
     },
     'C16': {
-        'kinds': {1601: {'quick': 1500, 'thorough': 20000}, 1602: {'quick': 3000, 'thorough': 60000}, 1603: {'quick': 800, 'thorough': 10000}, 1604: {'quick': 300, 'thorough': 5000}},
+        'kinds': {1601: {'quick': 1500, 'thorough': 20000}, 1602: {'quick': 3000, 'thorough': 60000}, 1603: {'quick': 800, 'thorough': 10000}, 1604: {'quick': 300, 'thorough': 5000}, 1605: {'quick': 300, 'thorough': 5000}},
         'trusted': ['sync/atomic CompareAndSwap/Load are linearizable (the model runs an announce as two atomic steps)',
                     'Go scheduler: the scripted member blocks inside Announce, so the harness decides the order of loads and CASes'],
         'assumptions': ['tier size fits int32; index never reaches 2^31 (true with the fix: it stays below n)'],
